@@ -44,7 +44,7 @@ def run(c):
     rnd = random.Random(c.seed)
     t0, ph = time.time(), {}
     # ---- M
-    k = A.consts(MaxDepth=4, ConfigSel={"plain", "gss+ctx+bound"}) if c.quick else A.consts(MaxDepth=7)
+    k = A.consts(MaxDepth=4, ConfigSel={"plain", "gss+ctx+bound"}) if c.quick else A.consts(MaxDepth=7, Users={"alice", "eve", "anon"})
     wits, msgs = A.model_check_and_generate(c, k, "cap scaled to 3, depth %d" % (k["MaxDepth"] - 1))
     kc = A.consts(FailCap=10, Focus="cap", ConfigSel={"plain"}, MaxDepth=14)
     capwits, _ = A.model_check_and_generate(c, kc, "real cap 10, failing-attempt alphabet, 13 messages")
@@ -53,6 +53,7 @@ def run(c):
         sens = [({"PinsUser": False}, "SwitchEnds|UserPinned|OneUser"), ({"CapOffset": 1}, "CapRespected"),
                 ({"RekeyResetsAuthState": True}, "UserPinned|CapRespected|OneUser"),
                 ({"ServiceRequestResets": True}, "UserPinned|CapRespected|OneUser"),
+                ({"UnpinnedUser": "anon", "Users": {"alice", "anon"}}, "SwitchEnds|OneUser"),
                 ({"PartialCounts": True}, "CapExact")]
         c.mc_holds("ServerAuth", A.mc_cfg(A.consts(FailCap=10, MaxDepth=14)), name="real cap, full alphabet, 13 messages", workers=2, env=A.JVM)
     for sw, inv in sens:
@@ -83,13 +84,25 @@ def run(c):
     # a key re-exchange between authentication messages keeps the pin and the counter: after it, naming the other
     # user still ends the connection, and the attempts made before it still count towards the cap
     prim = A.primary(msgs)
-    other = sorted(u for u in {m["user"] for m in msgs} if u not in ("", prim))[0]
+    other = sorted(u for u in {m["user"] for m in msgs} if u not in ("", prim, "anon"))[0]
     req = lambda u, cb: A.clean({"k": "request", "user": u, "service": "ssh-connection", "method": "none", "cb": cb})
     classes = {}
     for w in sorted(wits, key=lambda w: (len(w["hist"]), repr(w["hist"]))):
         if w["alive"] and not w["authenticated"] and w["mode"] == "plain" and pinned(w) == prim:
             classes.setdefault((w["cfg"], w["failCount"]), w)
     pinnedw = list(classes.values())
+    # the empty user name is a user name: a connection that started as "" is pinned to "" (and one pinned to another name
+    # cannot move to "") - fixed stratum; "anon" is rendered as the empty string
+    rq = lambda u, m, cb, **kw: A.clean(dict({"k": "request", "user": u, "service": "ssh-connection", "method": m, "cb": cb}, **kw))
+    for name, seq in (("none-then-none", [rq("anon", "none", "fail"), rq(prim, "none", "ok")]),
+                      ("none-then-password", [rq("anon", "none", "fail"), rq(prim, "password", "ok")]),
+                      ("probe-then-publickey", [rq("anon", "publickey", "ok", sig="absent"), rq(prim, "publickey", "ok", sig="good")]),
+                      ("partial-then-password", [rq("anon", "password", "partial"), rq(other, "password", "ok")]),
+                      ("to-empty", [rq(prim, "none", "fail"), rq("anon", "none", "ok")])):
+        for bursty in ((False,) if c.quick else (False, True)):
+            sq = seq + [rq(prim, "none", "ok")]
+            jobs.append({"bursts": [sq] if bursty else A.single(sq), "opts": {}, "key": "empty-user|%s|%s" % (name, bursty),
+                         "names": A.DEFAULT_NAMES, "sample": name == "none-then-password"})
     sreq = A.clean({"k": "service_request", "service": "ssh-userauth"})
     # SERVICE_REQUEST again in the middle of the dialogue, as paramiko's classic client sends it before every attempt
     for i, w in enumerate(pinnedw[:3 if c.quick else len(pinnedw)]):
